@@ -5,6 +5,7 @@ package absnfs
 func init() {
 	vpRegister("VPH_C10_squash", VPH_C10_squash)
 	vpRegister("VPH_C10_body", VPH_C10_body)
+	vpRegister("VPH_C10_connection", VPH_C10_connection)
 }
 
 // vpCaseWord returns w with the case of every letter chosen symbolically.
@@ -200,5 +201,46 @@ func VPH_C10_body() {
 	} else {
 		vpReach("body-undecodable")
 		vpAssert(!res.Allowed, "undecodable-body-denied")
+	}
+}
+
+// VPH_C10_connection: two AUTH_SYS calls with different credentials on ONE record-marking
+// connection, through the real connection loop: each call is judged under its own credential (the
+// second caller does not inherit the first one's identity). Observed through what the backend is
+// told: each MKDIR chowns the new directory to that call's effective uid and gid (squash "none").
+func VPH_C10_connection() {
+	fs := vpStdTree()
+	fs.addAbsent("/d/n1")
+	fs.addAbsent("/d/n2")
+	env := vpServer(fs, ExportOptions{Squash: "none"})
+	hd := env.handleFor("/d")
+	env.srv.options.UseRecordMarking = true
+	uid := []uint32{vpU32("uid1"), vpU32("uid2")}
+	gid := []uint32{vpU32("gid1"), vpU32("gid2")}
+	var in []byte
+	for k := 0; k < 2; k++ {
+		var b vpBuf
+		b.u32(uint32(100+k)).u32(RPC_CALL).u32(2).u32(NFS_PROGRAM).u32(NFS_V3).u32(NFSPROC3_MKDIR)
+		b.u32(AUTH_SYS).opaque(vpAuthSysBody(7, "h", uid[k], gid[k], nil)).u32(AUTH_NONE).u32(0)
+		b.fh(hd).str([]string{"n1", "n2"}[k]).sattr(&vpSattr{})
+		in = append(in, vpFrame(b.Bytes())...)
+	}
+	conn := &vpConn{in: in, remote: "10.0.0.5:800"}
+	env.fs.log = nil
+	env.srv.handleConnectionWithRecordMarking(conn, env.h)
+	replies, ok := vpSplitRecords(conn.out)
+	vpAssert(vpAnd(ok, len(replies) == 2), "both-calls-answered")
+	for k, p := range []string{"/d/n1", "/d/n2"} {
+		seen := false
+		for _, c := range env.fs.log {
+			if (c.op == "Chown" || c.op == "Lchown") && c.path == p {
+				seen = true
+				vpAssert(vpAnd(uint32(c.a) == uid[k], uint32(c.b) == gid[k]), "each-call-runs-under-its-own-credential")
+			}
+		}
+		if fs.lookup(p) != nil {
+			vpReach("mkdir-done")
+			vpAssert(seen, "new-directory-given-the-callers-identity")
+		}
 	}
 }
